@@ -37,7 +37,7 @@ struct Cnt { long long cases = 0, evals = 0, nontriv = 0; std::set<std::pair<u64
 
 // fn: 0 parcpy, 1 parSetZero; +2 = called from inside another parallel region (the runtime then grants the inner
 // region a team of ONE thread although more were requested: num_threads is an upper bound, not a promise)
-static std::string casestr(int fn, u64 size, int nt) { return fmt("fn=%s size=%llu nt=%d env=%s", (fn & 1) == 0 ? "parcpy" : "parSetZero", (unsigned long long)size, nt, fn >= 2 ? "nested" : "top"); }
+static std::string casestr(int fn, u64 size, int nt) { return fmt("fn=%s size=%llu nt=%d env=%s", (fn & 1) == 0 ? "parcpy" : "parSetZero", (unsigned long long)size, nt, (fn & 2) ? "nested" : "top") + ((fn & 4) ? " mem=shared" : (fn & 8) ? " mem=file" : ""); }
 
 // "" = pass, else "<kind>\t<detail>"
 static std::string run_case(int fn, u64 size, int nt, Cnt *cnt)
@@ -45,7 +45,9 @@ static std::string run_case(int fn, u64 size, int nt, Cnt *cnt)
     std::string fail;
     size_t g = EXACT ? 0 : GUARD;
     std::vector<u64> srcplain, dstplain;
-    u64 *src, *dst, *srcblk = 0, *dstblk = 0;
+    u64 *src, *dst, *srcblk = 0, *dstblk = 0, *sp = 0, *dp = 0;
+    void *smap = 0, *dmap = 0;
+    size_t maplen = 0;
     if (EXACT)
     {
         srcblk = (u64 *)malloc(size * sizeof(u64));
@@ -55,11 +57,43 @@ static std::string run_case(int fn, u64 size, int nt, Cnt *cnt)
     }
     else
     {
-        srcplain.resize(size + 2 * g);
-        dstplain.resize(size + 2 * g);
-        src = srcplain.data() + g;
-        dst = dstplain.data() + g;
-        for (size_t i = 0; i < size + 2 * g; i++) { srcplain[i] = tagv(i); dstplain[i] = sent(i); }
+        // what backs the caller's buffers: 0 heap, 1 (fn & 4) a shared anonymous mapping, 2 (fn & 8) a private mapping of a file whose
+        // contents are what the buffers hold before the call -- memory is memory: the transfer may not depend on it
+        const int backing = (fn & 4) ? 1 : (fn & 8) ? 2 : 0;
+        const size_t tot = size + 2 * g, bytes = ((tot * sizeof(u64) + 4095) / 4096) * 4096;
+        if (backing == 0)
+        {
+            srcplain.resize(tot);
+            dstplain.resize(tot);
+            sp = srcplain.data();
+            dp = dstplain.data();
+        }
+        else
+        {
+            for (int which = 0; which < 2; which++)
+            {
+                void *m = MAP_FAILED;
+                if (backing == 1) m = mmap(0, bytes, PROT_READ | PROT_WRITE, MAP_SHARED | MAP_ANONYMOUS, -1, 0);
+                else
+                {
+                    int fd = memfd_create("c17", 0);
+                    if (fd >= 0 && ftruncate(fd, (off_t)bytes) == 0)
+                    {
+                        std::vector<u64> init(bytes / sizeof(u64));
+                        for (size_t i = 0; i < init.size(); i++) init[i] = which ? sent(i) : tagv(i);
+                        if (pwrite(fd, init.data(), bytes, 0) == (ssize_t)bytes) m = mmap(0, bytes, PROT_READ | PROT_WRITE, MAP_PRIVATE, fd, 0);
+                    }
+                    if (fd >= 0) close(fd);
+                }
+                if (m == MAP_FAILED) return "uncovered\tcould not create the mapping that backs the buffers";
+                (which ? dp : sp) = (u64 *)m;
+                (which ? dmap : smap) = m;
+                maplen = bytes;
+            }
+        }
+        src = sp + g;
+        dst = dp + g;
+        for (size_t i = 0; i < tot; i++) { sp[i] = tagv(i); dp[i] = sent(i); }
     }
     if (EXACT)
         for (u64 i = 0; i < size; i++) { src[i] = tagv(g + i); dst[i] = sent(g + i); }
@@ -69,7 +103,7 @@ static std::string run_case(int fn, u64 size, int nt, Cnt *cnt)
         if ((fn & 1) == 0) Goldilocks::parcpy((Goldilocks::Element *)dst, (const Goldilocks::Element *)src, size, nt);
         else Goldilocks::parSetZero((Goldilocks::Element *)dst, size, nt);
     };
-    if (fn >= 2)
+    if (fn & 2)
     {
 #pragma omp parallel num_threads(2)
         {
@@ -92,10 +126,10 @@ static std::string run_case(int fn, u64 size, int nt, Cnt *cnt)
     if (!EXACT)
     {
         for (size_t i = 0; i < g && fail.empty(); i++)
-            if (dstplain[i] != sent(i)) fail = "write-outside\t" + fmt("%llu element(s) before the destination was overwritten", (unsigned long long)(g - i));
+            if (dp[i] != sent(i)) fail = "write-outside\t" + fmt("%llu element(s) before the destination was overwritten", (unsigned long long)(g - i));
         for (size_t i = 0; i < g && fail.empty(); i++)
-            if (dstplain[g + size + i] != sent(g + size + i))
-                fail = "write-outside\t" + fmt("destination[size+%llu] (size=%llu) was overwritten with ", (unsigned long long)i, (unsigned long long)size) + hex(dstplain[g + size + i]);
+            if (dp[g + size + i] != sent(g + size + i))
+                fail = "write-outside\t" + fmt("destination[size+%llu] (size=%llu) was overwritten with ", (unsigned long long)i, (unsigned long long)size) + hex(dp[g + size + i]);
     }
     if (fail.empty() && memcmp(src - g, srccopy.data(), srccopy.size() * sizeof(u64)) != 0) fail = "input-modified\tsource changed";
     if (cnt)
@@ -107,6 +141,8 @@ static std::string run_case(int fn, u64 size, int nt, Cnt *cnt)
     }
     free(srcblk);
     free(dstblk);
+    if (smap) munmap(smap, maplen);
+    if (dmap) munmap(dmap, maplen);
     return fail;
 }
 
@@ -166,7 +202,8 @@ static void report_abnormal(const Iso &r, const std::string &cur)
 static void emit(int fn, u64 size, int nt, const std::string &f)
 {
     size_t t = f.find('\t');
-    rep().viol("C17." + f.substr(0, t) + "." + ((fn & 1) == 0 ? "parcpy" : "parSetZero") + (fn >= 2 ? ".nested" : ""), casestr(fn, size, nt), std::string("goldilocks_base_field.cpp ") + ((fn & 1) == 0 ? "parcpy: " : "parSetZero: ") + f.substr(t + 1));
+    if (f.substr(0, t) == "uncovered") { rep().uncovered(casestr(fn, size, nt) + ": " + f.substr(t + 1)); return; }
+    rep().viol("C17." + f.substr(0, t) + "." + ((fn & 1) == 0 ? "parcpy" : "parSetZero") + ((fn & 2) ? ".nested" : "") + ((fn & 12) ? ".backing" : ""), casestr(fn, size, nt), std::string("goldilocks_base_field.cpp ") + ((fn & 1) == 0 ? "parcpy: " : "parSetZero: ") + f.substr(t + 1));
 }
 
 int main(int argc, char **argv)
@@ -175,7 +212,7 @@ int main(int argc, char **argv)
     if (!args.one.empty())
     {
         auto m = parse_case(args.one);
-        int fn = (cs(m, "fn") == "parSetZero" ? 1 : 0) + (cs(m, "env") == "nested" ? 2 : 0);
+        int fn = (cs(m, "fn") == "parSetZero" ? 1 : 0) + (cs(m, "env") == "nested" ? 2 : 0) + (cs(m, "mem", "") == "shared" ? 4 : cs(m, "mem", "") == "file" ? 8 : 0);
         u64 size = cu(m, "size", 0);
         int nt = (int)strtol(cs(m, "nt", "1").c_str(), 0, 0);
         std::string cur = casestr(fn, size, nt);
@@ -190,6 +227,7 @@ int main(int argc, char **argv)
     std::vector<u64> sizes;
     for (u64 s = 0; s <= 40; s++) sizes.push_back(s);
     for (u64 s : {63, 64, 65, 1000}) sizes.push_back(s);
+    if (!EXACT) for (u64 s : {2048, 5000, 16395}) sizes.push_back(s); // several whole pages
     fork_pool((long)sizes.size(), std::min(args.jobs, 4), [&](long j) {
         u64 size = sizes[j];
         static char *mine = 0;
@@ -202,6 +240,9 @@ int main(int argc, char **argv)
         nts.erase(std::unique(nts.begin(), nts.end()), nts.end());
         for (int fn = 0; fn < 4; fn++)
             for (int nt : nts) todo.push_back({fn, nt});
+        if (!EXACT) // other memory behind the buffers (shared anonymous mapping, private file mapping)
+            for (int fn : {4, 5, 8, 9})
+                for (int nt : {1, 3, 7}) todo.push_back({fn, nt});
         size_t at = 0;
         while (at < todo.size())
         {
